@@ -208,6 +208,8 @@ def plan(pid: str, tier: str, seed: int) -> dict:
         progs = [p for p in core + extra if p["name"] != "stopped"] + [PR.by_name(n) for n in SYN] + \
                 [p for p in join_family() if p["name"] in ("firstofslow", "firstofallfail", "quorumimpossible", "mmfail", "deep")] + \
                 PR.region_family() + PR.split_family() + PR.halt_family() + PR.milestone_family()
+        # (failPipeline = false ends a workflow SUCCEEDED with the branch STOPPED by explicit design - DESIGN 6.2: outside C05)
+        progs = [p for p in progs if all(s["failp"] for s in p["stages"])]
         nseed = 20 if quick else 300
         return dict(
             progs=progs, props=["C05_QuietMeansDone", "C05_SucceededIsHonest", "C05_FailureReported",
